@@ -1,12 +1,22 @@
-/* module-specific operations of the fiber-regime driver (grows with the modules) */
-#include <string.h>
+/* registry of the module-specific driver extensions (drivers/ext_<module>.c) */
+#include <stddef.h>
 #include "drv_ext.h"
+static const drv_ext_t* g_ext[32];
+static int g_next;
+void drv_ext_register(const drv_ext_t* e) {
+  if (g_next < 32) g_ext[g_next++] = e;
+}
 int drv_ext_op(const char* fiber, const char* op, const char* a1, const char* a2) {
-  (void)fiber; (void)op; (void)a1; (void)a2;
+  for (int i = 0; i < g_next; i++)
+    if (g_ext[i]->op && g_ext[i]->op(fiber, op, a1, a2)) return 1;
   return 0;
 }
 int drv_ext_obj(const char* kind, const char* name, long arg, void** obj) {
-  (void)kind; (void)name; (void)arg; (void)obj;
+  for (int i = 0; i < g_next; i++)
+    if (g_ext[i]->obj && g_ext[i]->obj(kind, name, arg, obj)) return 1;
   return 0;
 }
-void drv_ext_setup(void) {}
+void drv_ext_setup(void) {
+  for (int i = 0; i < g_next; i++)
+    if (g_ext[i]->setup) g_ext[i]->setup();
+}
